@@ -62,7 +62,7 @@ BAD = {
     "LENGTH": ["abc"],
     "SEQNUM": ["abc", "-1"],
     "NUMINGROUP": ["abc"],
-    "DAYOFMONTH": ["abc", "32"],
+    "DAYOFMONTH": ["32", "abc", "0"],
     "FLOAT": ["abc", "1.2.3"],
     "QTY": ["abc", "1.2.3"],
     "PRICE": ["abc", "1.2.3"],
@@ -70,12 +70,12 @@ BAD = {
     "AMT": ["abc", "1.2.3"],
     "PERCENTAGE": ["abc", "1.2.3"],
     "CHAR": ["ab"],
-    "BOOLEAN": ["X"],
+    "BOOLEAN": ["X", "YN"],
     "STRING": ["a\x01b"],
     "MULTIPLEVALUESTRING": ["a\x01b"],
     "MULTIPLESTRINGVALUE": ["a\x01b"],
-    "COUNTRY": ["USAX"],
-    "CURRENCY": ["USDXX"],
+    "COUNTRY": ["USA", "U\x01"],       # ISO 3166 alpha-2: exactly two letters
+    "CURRENCY": ["USDX", "US\x01"],    # ISO 4217: exactly three letters
     "EXCHANGE": ["N\x01Y"],
     "LOCALMKTDATE": ["abc", "20241301"],
     "UTCDATEONLY": ["abc", "20241301"],
@@ -265,11 +265,12 @@ def canon_value(m):
 
 def build(members, in_group, mode, target=None, two=False, path=()):
     """mode 'min': required (and 'required?') members, group delimiters, members on `target`;
-    mode 'max': everything.  two: every group gets a second (minimal) item."""
+    mode 'groups': as 'min' plus every repeating group; mode 'max': everything.
+    two: every group gets a second item (built in mode 'min', or 'groups' when mode is 'groups')."""
     nodes = []
     for i, m in enumerate(members):
         p = path + (m["tag"],)
-        inc = (mode == "max" or m["req"] != "N" or (in_group and i == 0)
+        inc = (mode == "max" or m["req"] != "N" or (in_group and i == 0) or (mode == "groups" and m["k"] == "g")
                or (target is not None and target[:len(p)] == p))
         if not inc:
             continue
@@ -278,7 +279,10 @@ def build(members, in_group, mode, target=None, two=False, path=()):
         else:
             items = [build(m["mem"], True, mode, target, two, p)]
             if two:
-                items.append(build(m["mem"], True, "min", None, False, p))
+                if mode == "groups":
+                    items.append(build(m["mem"], True, "groups", None, True, p))
+                else:
+                    items.append(build(m["mem"], True, "min", None, False, p))
             nodes.append([m["tag"], items])
     return nodes
 
@@ -345,11 +349,9 @@ def replace(tree, addr, newc):
     return t
 
 
-LEVELS = ["top", "group", "nested"]
-
-
 def level_name(level):
-    return LEVELS[min(level, 2)]
+    """'top' = message body, 'nested' = inside a repeating group item (any depth)."""
+    return "top" if level == 0 else "nested"
 
 
 # --------------------------------------------------------------------------------------
@@ -462,6 +464,7 @@ def valid_instances(dc, mi, quick_subset):
     yield "maximal", mx
     yield "top_level_order_reversed", list(reversed(mx))
     yield "two_item_groups", build(members, False, "max", two=True)
+    yield "two_item_groups", build(members, False, "groups", two=True)
     h = header_nodes(dc, mt, False)
     if h is not None:
         yield "with_header", h + mn + trailer_nodes(dc, False)
@@ -543,7 +546,7 @@ def message_tags(members):
     return s
 
 
-def faults(dc, mi, base, thorough, only_second_items=False):
+def faults(dc, mi, base, thorough, only_in_groups=False, swap_first_only=False):
     """yield (class, level name, tree, note) - each one differs from a valid instance by
     exactly one violation of the dictionary."""
     name, mt, members = dc.msgs[mi]
@@ -552,7 +555,7 @@ def faults(dc, mi, base, thorough, only_second_items=False):
     nested_only = sorted(all_tags - top_tags, key=int)
     absent = [t for t in dc.plain if t not in all_tags]
     for addr, nodes, mem, level in containers(base, members):
-        if only_second_items and not any(ii == 1 for _ni, ii in addr):
+        if only_in_groups and level == 0:
             continue
         lv = level_name(level)
         idx = {m["tag"]: (j, m) for j, m in enumerate(mem)}
@@ -581,7 +584,7 @@ def faults(dc, mi, base, thorough, only_second_items=False):
                 yield "group_given_as_field", lv, \
                     replace(base, addr, nodes[:ni] + [[tag, "1"]] + nodes[ni + 1:]), m["name"]
             # -- order inside a group item
-            if level > 0 and ni + 1 < len(nodes):
+            if level > 0 and ni + 1 < len(nodes) and (ni == 0 or not swap_first_only):
                 sw = list(nodes)
                 sw[ni], sw[ni + 1] = sw[ni + 1], sw[ni]
                 yield "group_member_out_of_order", lv, replace(base, addr, sw), m["name"]
@@ -611,23 +614,25 @@ def faults(dc, mi, base, thorough, only_second_items=False):
 def header_faults(dc, mi, thorough):
     """Complete message (BeginString present): faults in the header part."""
     name, mt, members = dc.msgs[mi]
-    h = header_nodes(dc, mt, True)
-    if h is None:
+    hreq = header_nodes(dc, mt, False)
+    hall = header_nodes(dc, mt, True)
+    if hreq is None:
         return
     body = build(members, False, "min")
     tr = trailer_nodes(dc, False)
     hm = {m["tag"]: m for m in dc.d.header if m["k"] == "f"}
-    for ni, (tag, val) in enumerate(h):
+    for ni, (tag, val) in enumerate(hreq):
         m = hm[tag]
         if tag == "8":
             continue  # without BeginString the message is not a complete message: unconstrained
-        if m["req"] == "Y":
-            yield "missing_required_field", "header", h[:ni] + h[ni + 1:] + body + tr, m["name"]
+        yield "missing_required_header_field", "top", hreq[:ni] + hreq[ni + 1:] + body + tr, m["name"]
         for cls, v in bad_values(m, thorough):
-            if m["req"] == "Y":
-                yield cls, "header", h[:ni] + [[tag, v]] + h[ni + 1:] + body + tr, m["name"]
-            else:
-                yield "bad_value", "header_optional_field", h[:ni] + [[tag, v]] + h[ni + 1:] + body + tr, m["name"]
+            yield cls, "top", hreq[:ni] + [[tag, v]] + hreq[ni + 1:] + body + tr, m["name"]
+    for ni, (tag, val) in enumerate(hall):
+        m = hm[tag]
+        if m["req"] == "N":
+            for cls, v in bad_values(m, thorough):
+                yield "bad_value", "header_optional_field", hreq + [[tag, v]] + body + tr, m["name"]
 
 
 VALID_CLAUSE = ("a message built according to the dictionary (required members present, only allowed members, "
@@ -696,8 +701,11 @@ REPO = "/repo"
 
 
 def _work(item):
-    """item = (did, mi, part, thorough) ; part in valid / faults_min / faults_max / faults_2nd / header"""
+    """item = (did, mi, part, thorough) ; part in valid / faults_min / faults_max / faults_two / header"""
     did, mi, part, thorough = item
+    # all values of the fault tables everywhere in the thorough tier, in the small dictionaries and on
+    # the small bases; the first value only at the positions of the maximal instance in the quick tier
+    thorough_values = thorough or did in ("SIMPLE", "SYN") or part != "faults_max"
     dc = get_dc(did, REPO)
     name, mt, members = dc.msgs[mi]
     seen = set()
@@ -734,7 +742,7 @@ def _work(item):
             res["classes"][k] = res["classes"].get(k, 0) + 1
             record(judge_valid(did, name, mt, cls, tree, v))
     elif part == "header":
-        for cls, lv, tree, note in header_faults(dc, mi, thorough):
+        for cls, lv, tree, note in header_faults(dc, mi, thorough_values):
             v = run_one(tree)
             if v is None:
                 continue
@@ -750,9 +758,10 @@ def _work(item):
             if base == mn:
                 base = None
         else:
-            base, bname, second = build(members, False, "max", two=True), "two_item_groups", True
+            # every group of the message with two small items each: faults in first and in second items
+            base, bname, second = build(members, False, "groups", two=True), "all_groups_two_items", True
         if base is not None:
-            for cls, lv, tree, note in faults(dc, mi, base, thorough, only_second_items=second):
+            for cls, lv, tree, note in faults(dc, mi, base, thorough_values, only_in_groups=second):
                 v = run_one(tree)
                 if v is None:
                     continue
@@ -768,9 +777,11 @@ ORDER_CORPUS = {}   # did -> list of (mt, tree)
 ORDER_BASE = {}     # did -> list of verdicts under the declared order
 
 
-def order_corpus(dc, small):
+def order_corpus(dc, size):
     """Verdict-sensitive corpus: valid instances plus the faults whose verdict depends on the
-    member lists, their order and their required flags."""
+    member lists, their order and their required flags.
+    size 'all': every fault of the minimal and the maximal instance; 'medium': structural faults of the
+    maximal instance; 'small': removals, and one swap (delimiter <-> successor) per group item."""
     out = []
     for mi, (name, mt, members) in enumerate(dc.msgs):
         mn = build(members, False, "min")
@@ -778,16 +789,18 @@ def order_corpus(dc, small):
         out.append((mt, mn))
         out.append((mt, mx))
         out.append((mt, build(members, False, "max", two=True)))
-        keep = ("missing_required_field", "missing_group_first_member", "missing_required_group",
-                "group_member_out_of_order", "unknown_tag", "member_of_other_container",
-                "group_given_as_field")
-        if small:
+        if size == "all":
             for cls, lv, tree, note in faults(dc, mi, mx, True):
                 out.append((mt, tree))
             for cls, lv, tree, note in faults(dc, mi, mn, True):
                 out.append((mt, tree))
         else:
-            for cls, lv, tree, note in faults(dc, mi, mx, False):
+            keep = ("missing_required_field", "missing_group_first_member", "missing_required_group",
+                    "group_member_out_of_order", "unknown_tag", "member_of_other_container",
+                    "group_given_as_field")
+            if size == "small":
+                keep = keep[:4]
+            for cls, lv, tree, note in faults(dc, mi, mx, False, swap_first_only=(size == "small")):
                 if cls in keep:
                     out.append((mt, tree))
     return out
@@ -889,7 +902,7 @@ def run(ctx):
         "instances (minimal, maximal, reversed top-level order, two-item groups, with header/trailer; thorough and "
         "small dictionaries also: minimal + each optional member at every depth, every further enumerator, every "
         "canonical typed value, maximal minus each optional member) and, from the minimal and the maximal instance "
-        "and the second items of the two-item instance, every single-fault mutation at every member position of "
+        "and every group item of the all-groups-two-items instance, every single-fault mutation at every member position of "
         "every container (remove required field/group/group delimiter, value outside enum/type, empty value, field "
         "as group, group as field, swap adjacent group members, add unknown / not-in-message / other-container tag); "
         "then every verdict is recomputed under permutations of <components>. non-trivial = instance containing at "
@@ -899,18 +912,17 @@ def run(ctx):
         dc = DC[did]
         for mi, (name, mt, members) in enumerate(dc.msgs):
             sz = count_positions(members)
-            parts = ["valid", "faults_min", "faults_max", "header"]
-            if thorough or did != "TT":
-                parts.append("faults_2nd")
+            parts = ["valid", "faults_min", "faults_max", "faults_two", "header"]
             if ctx.quick and did == "TT":
-                parts = ["valid", "faults_min", "header"]
+                parts = ["valid", "faults_min", "faults_two", "header"]
             for part in parts:
                 items.append((sz, DICT_IDS.index(did), mi, part))
     # big first for load balance; merged simplest-first below
     sched = sorted(items, key=lambda x: (-x[0], x[1], x[2], x[3]))
     work = [(DICT_IDS[di], mi, part, thorough) for (sz, di, mi, part) in sched]
     results = ctx.pmap(_work, work, chunk=1)
-    merged = sorted(zip(sched, results), key=lambda x: (x[0][0], x[0][1], x[0][2], x[0][3]))
+    rank = {"valid": 0, "faults_min": 1, "faults_max": 2, "faults_two": 3, "header": 4}
+    merged = sorted(zip(sched, results), key=lambda x: (x[0][3] == "header", x[0][0], x[0][1], x[0][2], rank[x[0][3]]))
     classes = {}
     for (sz, di, mi, part), r in merged:
         ctx.count(states=r["n"], transitions=r["calls"], traces=r["calls"], evaluations=r["calls"],
@@ -932,7 +944,13 @@ def run(ctx):
             nperm[did] = 0
             continue
         small = did in ("SIMPLE", "SYN")
-        ORDER_CORPUS[did] = order_corpus(dc, small)
+        if did == "SIMPLE":
+            size = "all"
+        elif did == "SYN":
+            size = "medium" if ctx.quick else "all"
+        else:
+            size = "small" if ctx.quick else "medium"
+        ORDER_CORPUS[did] = order_corpus(dc, size)
         ORDER_BASE[did] = [verdict(dc.schema, mt, tree) for mt, tree in ORDER_CORPUS[did]]
         ctx.count(transitions=len(ORDER_CORPUS[did]), evaluations=len(ORDER_CORPUS[did]))
         if small:
